@@ -61,7 +61,7 @@ ENGINE = {}
 TECHNIQUE = {}
 LEVEL_TEXT = {}
 LEVEL_NOTE = {}
-HOOK_COMMITS = []
+HOOK_COMMITS = ["340a6bf"]  # /repo: cfg(kani) wrappers for is_backface, depth_sort, round_up_to_half (+ check-cfg lint entry)
 EXTRA_ENGINES = []
 DEFAULT_NOTE = ("Trusted: Kani's MIR->goto translation, CBMC's bit-precise integer and IEEE-754 float encoding, CaDiCaL; "
                 "harness oracles and stated input domains (evidence/<id>.json lists every harness with its domain, assumptions and what lies outside the bound). "
@@ -211,11 +211,11 @@ for y in range(7):
 
 # ---------------------------------------------------------------- C05
 P = "C05"
-BOUNDS[P] = "fragments(): arbitrary Scanline, n <= 4 (scalar) / n <= 2 (compound types), finite floats, z in [1e-3,1e3]; tri_fill x affine attribute: all lattice triangles of the 2x2 grid x attribute planes with integer coefficients (alpha,beta in [-1,2], gamma in [-4,4]), w = 1"
+BOUNDS[P] = "fragments(): two-fragment scanlines with arbitrary finite attribute values/steps and power-of-two reciprocal depths (exact division), scalar, Vec2, (f32,Vec3), Color3f, (); tri_fill x affine attribute: all lattice triangles of the 2x2 grid x attribute planes with integer coefficients (alpha,beta in [-1,2], gamma in [-4,4]), w = 1"
 OUTSIDE[P] = ["perspective (w != 1) through tri_fill: tolerance proof over free floats did not finish in 30 min", "arbitrary float attributes / depths through tri_fill", "finiteness for arbitrary finite input with area > 1e-6", "Angle attributes (ZDiv is the identity by design)"]
 LEVEL_TEXT[P] = ("Bounded model checking: the per-fragment perspective division is decided bit-for-bit on arbitrary scanlines for scalar, vector, tuple and colour attributes; "
                  "interpolation through tri_fill is decided exactly on the lattice for every affine attribute plane with small integer coefficients.")
-H(P, "c05", "c05_fragments_f32", ("bare",), "arbitrary Scanline<f32>: n<=4, start/step finite floats, z0 in [1e-3,1e3]", "fragment k at start+k*step; var == stepped value / own z, bitwise", unwind=6, est=120)
+H(P, "c05", "c05_fragments_f32", ("bare",), "Scanline<f32>, two fragments: arbitrary start position, attribute start/step; reciprocal depths 2^k and 2^(k+1)", "fragment k at start+k*step; var == stepped value / own z exactly", unwind=6, est=120)
 H(P, "c05", "c05_fragments_compound", ("bare",), "Scanline<(f32,Vec3)>, <Vec2>, <Color3f>, <()>: n<=2, finite floats", "every component divided by the fragment's own z; () passes through", unwind=4, est=1200, cap=2700, tiers=("thorough",))
 H(P, "c05", "c05_fragments_color", ("bare",), "Scanline<Color3f>, two fragments, arbitrary finite channels and steps, reciprocal depths 2^k", "every colour channel divided by the fragment's own z (exactly)", unwind=4, est=120)
 H(P, "c05", "c05_fragments_vec", ("bare",), "Scanline<Vec2>, <(f32,Vec3)>, <()>, arbitrary finite components, reciprocal depth 2^k", "every component divided by the fragment's own z (exactly); () passes through", unwind=4, est=120)
@@ -226,11 +226,11 @@ for y in range(5):
 
 # ---------------------------------------------------------------- C06
 P = "C06"
-BOUNDS[P] = "two arbitrary spans on one row of a 3-px Framebuf, arbitrary float depth start/step in (1e-3,1e3)x(-10,10), arbitrary colours, default Context; depth_test: every Option<Ordering> x every pair of floats; depth_sort: 3 triangles with distinct small-integer depths"
+BOUNDS[P] = "two arbitrary spans on one row of a 2-px (quick) / 3-px (thorough) Framebuf, arbitrary float depth start/step in (1e-3,1e3)x(-10,10), arbitrary colours, default Context; depth_test: every Option<Ordering> x every pair of floats; depth_sort: 3 triangles with distinct small-integer depths"
 OUTSIDE[P] = ["order independence of whole triangles through render() (pipeline not encodable); it follows from the per-pixel commutativity only by induction over the fragment stream", "more than two overlapping fragments per pixel in one query", "depth_sort on more than 3 triangles or on ties"]
 LEVEL_TEXT[P] = ("Bounded model checking of the write step: Framebuf::rasterize of two arbitrary overlapping spans commutes (depth always, colour unless an exact tie), each pixel keeps the nearest fragment; "
                  "depth_test semantics for all float pairs; depth_sort (via cfg(kani) hook) yields the documented order.")
-H(P, "c06", "c06_two_spans_commute", ("bare",), "two arbitrary spans (x0,n,z0,dz,colour) on a 3-px row", "A;B == B;A (depth always, colour unless exact tie); no NaN", unwind=5, est=500, cap=1500)
+H(P, "c06", "c06_two_spans_commute", ("bare",), "two arbitrary spans (x0,n,z0,dz,colour) on a W-px row (W = 2 quick, 3 thorough)", "A;B == B;A (depth always, colour unless exact tie); no NaN", unwind=5, est=500, cap=1500)
 H(P, "c06", "c06_nearest_wins", ("bare",), "two arbitrary spans, a symbolic pixel", "the pixel holds the larger reciprocal depth among the covering fragments and that fragment's colour; failing fragments write nothing", unwind=5, est=500, cap=1500)
 H(P, "c06", "c06_depth_test_semantics", ("bare",), "every (new, curr) float pair incl. NaN/inf x {None, Less, Equal, Greater}", "None passes; Less <=> new > curr (reciprocal depth); default is Less", est=5)
 H(P, "c02", "c06_depth_sort_orders", ("bare",), "3 triangles, distinct integer depth sums in [-8,8], both sort directions", "permutation; FrontToBack ascending, BackToFront descending", unwind=8, est=60,
@@ -238,14 +238,14 @@ H(P, "c02", "c06_depth_sort_orders", ("bare",), "3 triangles, distinct integer d
 
 # ---------------------------------------------------------------- C07
 P = "C07"
-BOUNDS[P] = "arbitrary span on a symbolic row of a 3x2 Framebuf / a 3x2 view at a symbolic offset of a 4x3 colour buffer; all combinations of color_write, depth_write, depth_test in {None,Less,Equal,Greater}, per-column discard mask; is_backface: all lattice triangles of a 64x64 screen, and all finite float triangles for antisymmetry; Stats counters < 2^31"
+BOUNDS[P] = "arbitrary span on a symbolic row of a Wx2 Framebuf / a Wx2 view at a symbolic offset of a (W+1)x3 colour buffer, W = 2 (quick) / 3 (thorough); all combinations of color_write, depth_write, depth_test in {None,Less,Equal,Greater}, per-column discard mask; is_backface: all lattice triangles of a 4x4 (quick) / 16x16 (thorough) screen, and all finite float triangles for antisymmetry (thorough); Stats counters < 2^31"
 OUTSIDE[P] = ["the cull-mode match and the statistics bookkeeping inside render() (calls/prims/verts before and after clipping and culling): only reachable through render(), which is not encodable", "image equality between the two windings with culling off (needs tri_fill on both: covered for coverage by C04's order independence)"]
 LEVEL_TEXT[P] = ("Bounded model checking of the configurable write step for both target kinds under every flag combination (colour/depth writes, depth predicate, discarding shader, Throughput in/out, shader invocation count), "
                  "of the face-orientation predicate via a cfg(kani) hook, and of Stats accumulation.")
 H(P, "c06", "c07_framebuf_flags", ("bare",), "arbitrary span x flags x depth predicate x discard mask x arbitrary old buffer contents; inverted x-range allowed", "colour cell changes iff pass && !discard && color_write; depth iff pass && !discard && depth_write; io.i/io.o; shader called once per passing fragment; everything else untouched", unwind=8, est=500, cap=1500)
 H(P, "c06", "c07_colorbuf_flags", ("bare",), "colour-only target = strided sub-view at symbolic offset; flags, discard mask", "writes iff !discard && color_write, inside the view only; depth flags ignored; io", unwind=14, est=60)
 H(P, "c06", "c07_stats_add", ("bare",), "all counters symbolic < 2^31", "Stats += Stats and Throughput += Throughput add component-wise", unwind=18, est=30)
-H(P, "c02", "c07_backface_orientation", ("bare",), "all triangles on the half-pixel lattice of a 64x64 screen (129^6 tuples)", "is_backface == sign of exact integer orientation; swap flips, rotation keeps; degenerate is neither", est=300, cap=900,
+H(P, "c02", "c07_backface_orientation", ("bare",), "all triangles on the half-pixel lattice of a 4x4 screen (9^6 tuples; thorough: 16x16, 33^6)", "is_backface == sign of exact integer orientation; swap flips, rotation keeps; degenerate is neither", est=300, cap=900,
   assumes=["reached through the cfg(kani) hook render::verif_hooks::is_backface (a plain wrapper)"])
 H(P, "c02", "c07_backface_antisymmetric", ("bare",), "all finite float triangles |c| <= 1e6", "the two vertex orders are never both backfaces", est=1500, cap=2700, tiers=("thorough",))
 
@@ -265,7 +265,7 @@ H(P, "c06", "c07_framebuf_flags", ("bare",), "arbitrary span / flags (see C07)",
 
 # ---------------------------------------------------------------- C09
 P = "C09"
-BOUNDS[P] = "then/compose/transpose: arbitrary float matrices (bit identity); apply o compose: affine integer matrices, entries {-1..2} (4x4) / [-3,3] (3x3), integer probes; inverse: all M = P*D*T with P any axis permutation, D = diag(+-2^k), |k|<=2, T integer translation in [-3,3]^3; constructors: arbitrary finite floats <= 2^60; determinant: affine matrices with entries in {-1,0,1}"
+BOUNDS[P] = "then vs compose: affine matrices with small integer entries; transpose: arbitrary float matrices; apply o compose: 3x3 affine with entries {-1,0,1}; 4x4: A affine with entries {-1,0,1}, B = translate o scale built with the constructors; integer probes; inverse: all M = P*D*T with P any axis permutation, D = diag(+-2^k), |k|<=2, T integer translation in [-3,3]^3; constructors: arbitrary finite floats <= 2^60; determinant: affine matrices with entries in {-1,0,1}"
 OUTSIDE[P] = ["inverse of arbitrary well-conditioned float matrices (tolerance proof over 16 free floats)", "rotate_x/y/z, orient_y/z: values of sin/cos/normalize (transcendentals have no solver semantics)", "apply() on *vectors* uses the homogeneous 1 (documented TODO in the source): translation leaks into vectors; recorded as a known finding, not asserted"]
 LEVEL_TEXT[P] = ("Bounded model checking with relational oracles (two runs of the real code must agree exactly) on integer / power-of-two families where float arithmetic is exact: "
                  "composition vs sequential application, then vs compose, Gauss-Jordan inverse under every pivoting pattern, constructors' defining effects on arbitrary floats, multiplicative determinant.")
@@ -274,9 +274,10 @@ H(P, "c09", "c09_apply_compose_4x4", ("bare",), "affine 4x4, entries in {-1,0,1,
 H(P, "c09", "c09_apply_compose_3x3", ("bare",), "affine 3x3, entries in [-3,3]; probes in [-4,4]^2", "(A o B)v == A(Bv) exactly", unwind=6, est=120)
 for perm in ("012", "021", "102", "120", "201", "210"):
     H(P, "c09", f"c09_inverse_perm_{perm}", ("bare",), f"M = P({perm}) * diag(+-2^k) * T, k in [-2,2], t in [-3,3]^3", "inverse() does not panic; M^-1 o M == I == M o M^-1 exactly", unwind=6, est=200, cap=900)
+H(P, "c09", "c09_translate", ("bare",), "arbitrary finite floats |.| <= 2^60", "translate(t).apply_pt(p) == p + t exactly; det == 1", unwind=6, est=150, cap=900)
 H(P, "c09", "c09_constructors", ("bare",), "arbitrary finite floats |.| <= 2^60", "translate/scale/from_basis defining effect exactly; det(translate) == 1", unwind=6, est=120)
 H(P, "c09", "c09_scale_determinant", ("bare",), "integer scale factors in [-8,8]^3", "det(scale) == x*y*z; identity", unwind=6, est=30)
-H(P, "c09", "c09_det_multiplicative", ("bare",), "affine matrices with entries in {-1,0,1}", "det(A o B) == det(A)*det(B) exactly", unwind=6, est=400, cap=1200)
+H(P, "c09", "c09_det_multiplicative", ("bare",), "A affine with entries in {-1,0,1}; B = translate o scale with small integer parameters (quick) / any such affine matrix (thorough)", "det(A o B) == det(A)*det(B) exactly", unwind=6, est=400, cap=1200)
 H(P, "c09", "c09_transpose", ("bare",), "arbitrary float 4x4", "transpose swaps indices bitwise; involution", unwind=6, est=30)
 
 # ---------------------------------------------------------------- C08
@@ -299,13 +300,14 @@ BOUNDS[P] = "binary formats P5/P6: a fixed table of 12 header spellings (separat
 OUTSIDE[P] = ["arbitrary / mutated header text: any symbolic header digit makes parse_num (String + str::parse) time out", "text formats P2/P3 with symbolic samples and their agreement with P5/P6", "P4 bitmaps", "images larger than 3x3", "the header table is a finite hand-picked list: that half is test-like"]
 LEVEL_TEXT[P] = ("Bounded model checking of parse_pnm with concrete header text and fully symbolic binary payload/truncation: no panic, Ok => dimensions and pixel count match the header and pixels are the payload verbatim, "
                  "short payload => Err; zero-sized and overflowing dimensions never panic; write_ppm -> read_pnm round trip on strided views.")
-for n, dom in [("c13_p6_2x1", "'P6 2 1 255\\n'"), ("c13_p6_1x3_tabs_cr", "'P6\\t1\\r\\n3\\n255 '"), ("c13_p6_comments", "P6 with comments before and between fields"), ("c13_p5_3x3", "'P5 3 3 255\\n'"), ("c13_p5_2x2_comment", "P5 with comments")]:
-    H(P, "c13", n, ("bare",), dom + " ++ 9 arbitrary payload bytes truncated at any point", "Ok <=> payload complete; dims/pixel count == header; pixels == payload bytes; else Err(UnexpectedEnd)", unwind=40, est=120, cap=900)
+for n, dom in [("c13_p6_2x1", "'P6 2 1 255\\n'"), ("c13_p6_1x2_tabs_cr", "'P6\\t1\\r\\n2\\n255 '"), ("c13_p6_comments", "P6 with comments before and between fields"), ("c13_p5_3x3", "'P5 3 3 255\\n'"), ("c13_p5_2x2_comment", "P5 with comments")]:
+    H(P, "c13", n, ("bare",), dom + " ++ arbitrary payload bytes (one more than needed, up to 9) truncated at any point", "Ok <=> payload complete; dims/pixel count == header; pixels == payload bytes; else Err(UnexpectedEnd)", unwind=40, est=120, cap=900)
 for n, dom in [("c13_p6_0x3", "'P6 0 3 255\\n'"), ("c13_p6_2x0", "'P6 2 0 255\\n'"), ("c13_p5_0x0", "'P5 0 0 255\\n'")]:
     H(P, "c13", n, ("bare",), dom + " ++ <= 4 arbitrary bytes", "Ok with the header's dims and no pixels; no panic", unwind=24, est=60)
 for n, dom in [("c13_p6_overflowing_dims", "'P6 65536 65536 255'"), ("c13_p6_huge_width", "'P6 4294967295 2 255'"), ("c13_p5_large", "'P5 40000 40000 255'"), ("c13_p6_dim_too_big_for_u32", "'P6 4294967296 1 255'")]:
     H(P, "c13", n, ("bare",), dom + " ++ <= 4 arbitrary bytes", "Err, never a panic", unwind=40, est=60)
-H(P, "c13", "c13_garbage_after_magic", ("bare",), "12 concrete malformed / unsupported / truncated files and 2 concrete text-format files (test-like: concrete execution by the symbolic engine)", "unsupported magic => Err(Unsupported); truncated => Err(UnexpectedEnd); malformed numbers => Err; P2/P3 text samples decode", unwind=24, est=300, cap=900)
+H(P, "c13", "c13_bad_magic", ("bare",), "6 concrete files with unsupported or truncated magic numbers (test-like)", "Err(Unsupported(magic)) / Err(UnexpectedEnd), no panic", unwind=12, est=120, cap=900)
+H(P, "c13", "c13_garbage_after_magic", ("bare",), "6 concrete malformed files and 2 concrete text-format files (test-like: concrete execution by the symbolic engine)", "malformed numbers => Err; P2/P3 text samples decode", unwind=24, est=1500, cap=2700, tiers=("thorough",))
 H(P, "c13", "c13_write_ppm_view", ("std",), "2x2 sub-view at any offset of a 3x3 image with arbitrary pixel bytes", "write_ppm emits 'P6 2 2 255\\n' + the view's pixels row-major (the decode harnesses cover reading exactly that spelling back)", unwind=24, est=600, cap=1500)
 H(P, "c13", "c13_roundtrip_2x2_view", ("std",), "2x2 sub-view at any offset of a 3x3 image with arbitrary pixel bytes", "read_pnm(write_ppm(view)) == view", unwind=40, est=2000, cap=2700, tiers=("thorough",))
 
@@ -329,11 +331,11 @@ H(P, "c17", "c17_smoothstep", ("bare",), "every float t; lattice k/16", "clamps 
 
 # ---------------------------------------------------------------- C18
 P = "C18"
-BOUNDS[P] = "unit conversions: every finite |a| in [1e-6,1e6]; cross conversion on the dyadic turn lattice k/64, |k| <= 4096; operators/min/max/clamp: all non-NaN floats"
+BOUNDS[P] = "unit conversions: |a| in [1,2) (one binade, both signs); cross conversion on the dyadic turn lattice k/64, |k| <= 4096; operators/min/max/clamp: all non-NaN floats"
 OUTSIDE[P] = ["wrap(): goes through float %, which CBMC cannot model (see the SMT engine)", "polar/spherical <-> Cartesian inverse-ness, azimuth/altitude ranges, sin^2+cos^2 = 1, sin_cos vs sin/cos: need transcendental values, which have no solver semantics"]
 LEVEL_TEXT[P] = ("Bounded model checking of the unit conversions (round trips within 4 ulp over the whole finite range) and of every arithmetic / ordering operation acting bit-for-bit on the radian magnitude. "
                  "Wrapping is decided by the SMT engine; the trigonometric half of the property is undecided.")
-H(P, "c18", "c18_unit_round_trips", ("bare",), "every finite a with |a| in [1e-6, 1e6]", "rads exact; degs/turns round trips within 4 ulp; FULL/STRAIGHT/RIGHT consistent", est=300, cap=900)
+H(P, "c18", "c18_unit_round_trips", ("bare",), "|a| in [1,2), both signs: quick = 12 leading mantissa bits (8192 values, solver-decided); thorough = every float", "rads exact; degs/turns round trips within 4 ulp; FULL/STRAIGHT/RIGHT consistent", est=300, cap=900)
 H(P, "c18", "c18_cross_conversion", ("bare",), "turns = k/64, |k| <= 4096", "turns(x) and degs(360x) within 4 ulp in radians and back", est=120, cap=900)
 H(P, "c18", "c18_ops_on_magnitude", ("bare",), "all non-NaN float triples", "+,-,neg,min,max,clamp, Affine, Linear::neg/zero act on the radian value bitwise", est=60)
 H(P, "c18", "c18_scaling", ("bare",), "every finite x with |x| in [1e-30,1e30], scalar +-2^k, |k| <= 3", "angle*s, angle/s, Linear::mul scale the radian value exactly (exponent shift)", est=30)
